@@ -532,9 +532,13 @@ func c14Jobs(tier string) []Job {
 		{"1:N", "1:A w/d", "1:C", "2:N", "2:A w/d", "1:R w/d", "1:A w/d", "1:L"},
 		{"1:N", "1:A w/f", "1:A w/d", "1:C", "2:N 8", "2:A w/d", "2:A w/f", "1:R w/f", "1:R w/d", "1:C"},
 		// other Watchers on the same directories under other spellings (anything shared between Watchers shows in the names)
-		{"1:N", "1:A $W/d", "1:A ./w/d2", "2:N 4", "2:A w/ld", "2:A $W/d2"}}
+		{"1:N", "1:A $W/d", "1:A ./w/d2", "2:N 4", "2:A w/ld", "2:A $W/d2"},
+		// other Watchers whose watch descriptors are numbered differently for the same paths (anything
+		// shared between readers, such as a read buffer, then decodes the neighbour's records wrongly)
+		{"1:N", "1:A w/f", "1:A w/d2", "1:A w/d", "2:N 1", "2:A w/o", "2:A w/d"}}
 	main := [][]string{{"touch w/d/n", "write w/d/a", "mv w/d/a w/d/c", "rm w/d/n"}, {"write w/f", "chmod w/f", "mv w/f w/g"}, {"touch w/d/n ;; write w/d/a", "rm w/d/b ;; mkdir w/d/m"},
-		{"A w/d2", "mv w/d/a w/d2/a", "mv w/d2/a w/d/a ;; mv w/d/b w/d/c", "mv w/d/c w/o/c"}}
+		{"A w/d2", "mv w/d/a w/d2/a", "mv w/d2/a w/d/a ;; mv w/d/b w/d/c", "mv w/d/c w/o/c"},
+		{"touch w/d/n1 ;; write w/f ;; touch w/d/n2 ;; chmod w/f ;; rm w/d/n1", "write w/d/a ;; write w/f ;; write w/d/b"}}
 	var oh [][]string
 	for _, m := range main {
 		for _, o := range other {
@@ -576,7 +580,7 @@ func init() {
 		Rule:      "E1+E2: every schedule (preemption bound 2) of rename-then-delete, rename-then-rmdir, delete-then-recreate and burst histories against control calls, with consumers on Errors, so that the reader's position relative to each step is enumerated; the end-of-watch BFS with all two-operation bursts; an injected overflow marker at every position of a batch followed by further records and Add/Remove",
 		Technique: "stateless model checking (schedule enumeration) and explicit-state BFS of the real code; oracle = the multiset of values received on Errors equals the kernel overflow markers (as ErrEventOverflow) plus injected read faults, and the Watcher keeps working after an overflow",
 		Assume:    []string{"real queue overflow is exercised once in the thorough tier; its position inside a batch is enumerated with injected markers"}}
-	Checks["C14"] = &CheckDef{Prop: "C14", Jobs: c14Jobs,
+	Checks["C14"] = &CheckDef{Prop: "C14", Jobs: func(tier string) []Job { return append(c14Jobs(tier), multiJobs(tier)...) },
 		Rule:      "E2 differential: every history of one or two operations (thorough: three) over ten operations, as a burst and step by step, is run with Events capacity -1(default),0,1,2,4,...,65536 with an eager consumer and with capacity 0,1,8,64,65536 with the consumer attached only after the history; all runs of one history must deliver byte-identical sequences (and each must match the reference model); a Watcher whose capacity covers the history must absorb it with no consumer; cap(Events) must equal the request; then histories with one or two other Watchers being created, adding/removing the same paths and being closed at every position (synchronous close, so descriptor numbers are really reused)",
 		Technique: "exhaustive differential enumeration over configurations (buffer sizes, co-existing Watchers) on the real code",
 		Assume:    []string{"other Watchers run in the same process and share the scheduler"}}
